@@ -3,6 +3,7 @@
 // value syntax (twin of lean/Driver/C07.lean):
 //   (u) undef   (d) default   (b t|f)   (i N)   (f BITS)  IEEE-754 bits, decimal   (s xHEX)  string bytes
 //   (r xHEX) regexp source   (x xHEX) binary   (a v*) array   (h (k v)*) hash   (e k v) hash entry
+//   (mh (k v)*) a MutableHashValue built by NewMutableHash + Put (printed back as the hash with its entries)
 //   (sens v) sensitive   (t T) a type as a value, T one of
 //       (int lo hi)  (flt loBITS hiBITS)  str  any  undef  (enum ci xHEX*)  (arr T lo hi)  (var T*)  (tup (T*)) | (tup (T*) lo hi)
 //       (opt T)  (typ T)
@@ -143,6 +144,15 @@ func valOf(e sx.Sexp) px.Value {
 			es = append(es, types.WrapHashEntry(valOf(kv.List[0]), valOf(kv.List[1])))
 		}
 		return types.WrapHash(es)
+	case "mh":
+		m := types.NewMutableHash()
+		for _, kv := range a {
+			if !kv.IsList || len(kv.List) != 2 {
+				panic(fmt.Errorf("bad hash entry %s", kv))
+			}
+			m.Put(valOf(kv.List[0]), valOf(kv.List[1]))
+		}
+		return m
 	case "e":
 		return types.WrapHashEntry(valOf(a[0]), valOf(a[1]))
 	case "sens":
@@ -208,7 +218,21 @@ func typeStr(t px.Type) string {
 	return "?" + t.String()
 }
 
+// asHash: a Hash, or the Hash inside a MutableHashValue
+func asHash(v px.Value) (*types.Hash, bool) {
+	switch v := v.(type) {
+	case *types.Hash:
+		return v, true
+	case *types.MutableHashValue:
+		return &v.Hash, true
+	}
+	return nil, false
+}
+
 func valStr(v px.Value) string {
+	if m, ok := v.(*types.MutableHashValue); ok {
+		v = &m.Hash
+	}
 	switch v := v.(type) {
 	case *types.UndefValue:
 		return "(u)"
@@ -284,6 +308,9 @@ func force(v px.Value) {
 	_ = safely(func() { _ = v.PType() })
 	_ = safely(func() { _ = px.DetailedValueType(v) })
 	_ = safely(func() { _ = px.ToKey(v) })
+	if h, ok := asHash(v); ok {
+		v = h
+	}
 	switch v := v.(type) {
 	case *types.Hash:
 		_ = safely(func() { v.IncludesKey(px.Undef) })
@@ -296,7 +323,7 @@ func force(v px.Value) {
 // hashKeysKeyable: no key of any hash inside the tree contains a Sensitive.  Otherwise building a hash index panics with
 // INVALID_MAP_KEY at a point that depends on Go's map iteration order; such operands print `unkeyable` on both sides.
 func hashKeysKeyable(e sx.Sexp) bool {
-	if e.Tag() == "h" {
+	if e.Tag() == "h" || e.Tag() == "mh" {
 		for _, kv := range e.Args() {
 			if !noSens(kv.List[0]) {
 				return false
@@ -346,6 +373,9 @@ func comparable(e sx.Sexp) bool {
 
 // dupKeys: some hash in the tree holds two keys that are Equal (not a well-formed Hash: C09's subject)
 func dupKeys(v px.Value) bool {
+	if h, ok := asHash(v); ok {
+		v = h
+	}
 	switch v := v.(type) {
 	case *types.Hash:
 		ks := []px.Value{}
@@ -395,6 +425,9 @@ func topCollide(a, b px.Value) bool {
 // hashKeyCollision: some hash in the tree holds two keys that collide in that way (its index then has one slot for both)
 func hashKeyCollision(v px.Value) bool {
 	found := false
+	if h, ok := asHash(v); ok {
+		v = h
+	}
 	switch v := v.(type) {
 	case *types.Hash:
 		ks := []px.Value{}
@@ -489,7 +522,7 @@ func tagsOf(es ...sx.Sexp) []string {
 func interesting(es ...sx.Sexp) bool {
 	for _, e := range es {
 		switch e.Tag() {
-		case "a", "h", "e", "t", "s", "x", "r", "sens":
+		case "a", "h", "mh", "e", "t", "s", "x", "r", "sens":
 			return true
 		}
 	}
@@ -615,7 +648,7 @@ func exec(c px.Context, op string, args []sx.Sexp) core.Result {
 		return res
 	case "get":
 		hv := valOf(args[0])
-		h, ok := hv.(*types.Hash)
+		h, ok := asHash(hv)
 		if !ok {
 			return core.Result{Out: "bad-op", Pred: "n/a"}
 		}
@@ -843,6 +876,7 @@ func universe() []sx.Sexp {
 		hv(fv(0), iv(1)), hv(fv(negZero), iv(1)), hv(hv(sv("a"), iv(1), sv("b"), iv(2)), iv(1)), hv(hv(sv("b"), iv(2), sv("a"), iv(1)), iv(1)),
 		ent(sv("a"), sv("b")), ent(av(), av()), ent(ent(iv(1), iv(2)), iv(3)),
 		sx.T("sens", sv("a")), av(sx.T("sens", iv(1))),
+		sx.T("mh"), sx.T("mh", sx.L(sv("a"), iv(1))), sx.T("mh", sx.L(sv("b"), iv(2)), sx.L(sv("a"), iv(1))), av(sx.T("mh", sx.L(sv("a"), iv(1)))),
 		tv("(int "+minS+" "+maxS+")"), tv("(int 1 "+maxS+")"), tv("(int "+minS+" 2)"), tv("(int 0 0)"),
 		tv("str"), tv("any"), tv("undef"), tv("(flt "+fbits(-math.MaxFloat64)+" "+fbits(math.MaxFloat64)+")"), tv("(flt "+fbits(1)+" "+fbits(2)+")"),
 		tv("(arr any 0 "+maxS+")"), tv("(arr any 1 2)"), tv("(arr str 0 "+maxS+")"), tv("(arr (int 1 2) 3 4)"),
@@ -1056,7 +1090,12 @@ func mutate(r *rand.Rand, e sx.Sexp) sx.Sexp {
 			return sx.T("a", xs...)
 		}
 		return av(mk("(u)"))
+	case "mh":
+		return sx.T("h", a...)
 	case "h":
+		if r.Intn(5) == 0 && hashKeysKeyable(e) { // the same entries put into a builder
+			return sx.T("mh", a...)
+		}
 		if len(a) > 1 && r.Intn(2) == 0 { // permuted insertion order
 			xs := append([]sx.Sexp{}, a...)
 			r.Shuffle(len(xs), func(i, j int) { xs[i], xs[j] = xs[j], xs[i] })
